@@ -71,6 +71,8 @@ let parse_op (ncl : int) (s : string) : op option =
   | "K" -> Some (OTick (n_of_string f.(1)))
   | "H" -> Some OHK
   | ">" -> Some (OSrv (c ()))
+  | "}" -> Some (OSrvSame (c ()))
+  | "J" -> Some (OJump (n_of_string f.(1)))
   | "<" -> Some (OCli (c ()))
   | _ -> None
 
@@ -115,7 +117,7 @@ let handle (p : string) : string =
           | Some o ->
             (match o with
              | OSend (_, _, _, _, _, d) -> incr nsend; if List.length d > 512 then incr nbig
-             | OSrv _ -> incr nsrv | ODisc _ -> incr ndisc | _ -> ());
+             | OSrv _ | OSrvSame _ -> incr nsrv | ODisc _ -> incr ndisc | _ -> ());
             let (t, e) = do_step o in
             (if t = "" then e else t :: e)
         end in
